@@ -57,6 +57,33 @@ def r1_validated_constructor(ctx):
                 ctx.ob('C20.R1', 'constructor|%s' % b.nroot.replace('pavexc::compiler::analyses::', ''), ok, b.loc(bb, st),
                        'DomainGuard constructed in %s%s' % (b.nroot, ' after validate()?' if ok and not derived else ''))
     ctx.floor('C20.R1', 'DomainGuard construction sites', n, 1)
+    # what is validated is what the user wrote: the constructor hands its own parameter to validate(), untouched (validate itself decides how
+    # many trailing dots are tolerated; a constructor that trims first makes `example.com..` valid)
+    nb_ = ctx.need('C20.R1', 'DomainGuard::new', ctx.fb.body(CR, DG + '::new'))
+    if nb_ is not None:
+        defs_n = Defs(nb_)
+        vs = [(vb, t) for vb, t in nb_.calls() if callee(t) == VALIDATE]
+        for vb, t in vs:
+            q = op_place(t['args'][0])
+            sl, locs = backward_slice(nb_, q['l'], defs_n) if q else ([], set())
+            PASS_ = {'deref', 'as_str', 'as_ref', 'borrow', 'as_mut_str', 'deref_mut'}
+            odd = sorted(c for c, _, _ in slice_calls(sl) if c and c.split('::')[-1] not in PASS_)
+            # .. and nothing has been allowed to change the parameter before: no call that receives `&mut` of it on the way to validate()
+            before = nb_.reachable_from_entry(avoid=[vb]) | {0}
+            mutators = []
+            for mb, mt in nb_.calls():
+                if mb == vb or mb not in before or vb not in nb_.reachable([mb]):
+                    continue
+                for a_ in mt['args']:
+                    qa = op_place(a_)
+                    if qa is None:
+                        continue
+                    s2, l2 = backward_slice(nb_, qa['l'], defs_n, through_calls=False)
+                    if any(nd.get('rv', {}).get('k') == 'ref' and nd['rv'].get('bk') in ('mut', 'two_phase', 'mutable') and (nd['rv']['pl']['l'] in locs or nd['rv']['pl']['l'] == 1) for _, _, nd in s2 if 'rv' in nd):
+                        mutators.append(callee(mt) or '?')
+            ok = 1 in locs and not odd and not mutators
+            ctx.ob('C20.R1', 'validates-what-the-user-wrote', ok, nb_.loc(vb, t),
+                   'validate() receives the constructor\'s parameter (%s) through %s; calls that may have changed it before: %s' % (1 in locs, odd or 'accessors only', sorted(set(mutators)) or 'none'))
     v = ctx.need('C20.R1', 'validate', ctx.fb.body(CR, VALIDATE))
     if v is not None:
         defs = Defs(v)
